@@ -1,2 +1,452 @@
+(* C01 — proofs: the scanning loops compute the live highest-priority group; MergeAll's result is
+   the specification's [expected]; invariants of reachable worlds. *)
 From OlaBase Require Import Bytes.
 From C01 Require Import Gen Model Spec.
+Local Open Scope N_scope.
+
+Lemma live_liveb now s : live now s = liveb now s.
+Proof.
+  unfold live, liveb. change TIMEOUT_US with 2500000. f_equal.
+  destruct (s_data s); reflexivity.
+Qed.
+
+Lemma liveb_is_live now s : liveb now s = true <-> is_live now s.
+Proof.
+  unfold liveb, is_live. rewrite !andb_true_iff, negb_true_iff, N.eqb_neq, N.ltb_lt.
+  destruct (s_data s); intuition congruence.
+Qed.
+
+Lemma sid_eqb_eq a b : sid_eqb a b = true <-> a = b.
+Proof.
+  destruct a, b; cbn; rewrite ?N.eqb_eq; split; intros H; try congruence; try discriminate.
+Qed.
+Lemma sid_eqb_refl a : sid_eqb a a = true.
+Proof. apply sid_eqb_eq; reflexivity. Qed.
+
+(* ---- the group as a filter with an explicit threshold ---- *)
+Definition sel (now t : N) (l : srcs) : srcs :=
+  filter (fun e => liveb now (snd e) && (s_prio (snd e) =? t)) l.
+Lemma group_sel now l : group now l = sel now (top now l) l.
+Proof. reflexivity. Qed.
+
+Lemma top_app now a b : top now (a ++ b) = N.max (top now a) (top now b).
+Proof.
+  induction a as [|e a IH]; cbn [top app].
+  - lia.
+  - destruct (liveb now (snd e)); rewrite IH; lia.
+Qed.
+Lemma top_ge now l e : In e l -> liveb now (snd e) = true -> s_prio (snd e) <= top now l.
+Proof.
+  induction l as [|x l IH]; cbn [In top]; [tauto|].
+  intros [->|H] L.
+  - rewrite L. lia.
+  - specialize (IH H L). destruct (liveb now (snd x)); lia.
+Qed.
+Lemma top_attained now l :
+  top now l = 0 \/ exists e, In e l /\ liveb now (snd e) = true /\ s_prio (snd e) = top now l.
+Proof.
+  induction l as [|x l IH]; cbn [top]; [now left|].
+  destruct (liveb now (snd x)) eqn:L.
+  - right. destruct (N.max_spec (s_prio (snd x)) (top now l)) as [[Hlt ->]|[Hle ->]].
+    + destruct IH as [IH|(e & Hin & Hl & Hp)]; [lia|].
+      exists e. cbn [In]. auto.
+    + exists x. cbn [In]. auto.
+  - destruct IH as [IH|(e & Hin & Hl & Hp)]; [now left|].
+    right. exists e. cbn [In]. auto.
+Qed.
+Lemma sel_above now t l : top now l < t -> sel now t l = [].
+Proof.
+  intros H. unfold sel.
+  induction l as [|x l IH]; cbn [filter]; [reflexivity|].
+  cbn [top] in H.
+  destruct (liveb now (snd x)) eqn:L; cbn [andb].
+  - replace (s_prio (snd x) =? t) with false by (symmetry; apply N.eqb_neq; lia).
+    apply IH. lia.
+  - apply IH. exact H.
+Qed.
+Lemma sel_app now t a b : sel now t (a ++ b) = sel now t a ++ sel now t b.
+Proof. apply filter_app. Qed.
+Lemma member_app i a b : member i (a ++ b) = member i a || member i b.
+Proof. apply existsb_app. Qed.
+
+(* ---- the scanning loops ---- *)
+Definition scanl now chg (l : srcs) : acc := fold_left (scan_one now chg) l acc0.
+
+Lemma scanl_char now chg l :
+  a_prio (scanl now chg l) = top now l /\
+  a_act (scanl now chg l) = map snd (sel now (top now l) l) /\
+  a_cia (scanl now chg l) = member chg (sel now (top now l) l).
+Proof.
+  induction l as [|e l IH] using rev_ind.
+  - cbn. auto.
+  - unfold scanl in *. rewrite fold_left_app. cbn [fold_left].
+    destruct IH as (IHp & IHa & IHc).
+    set (a := fold_left (scan_one now chg) l acc0) in *.
+    rewrite top_app, sel_app, map_app, member_app. cbn [top].
+    destruct e as [i s]. unfold scan_one. rewrite live_liveb. cbn [snd].
+    destruct (liveb now s) eqn:L; cbn [negb].
+    + rewrite N.max_0_r.
+      destruct (a_prio a <? s_prio s) eqn:C; cbn [a_prio a_act a_cia].
+      * rewrite N.eqb_refl. cbn [a_prio a_act a_cia].
+        assert (N.max (top now l) (s_prio s) = s_prio s) as -> by lia.
+        rewrite sel_above by lia.
+        unfold sel. cbn [filter snd]. rewrite L, N.eqb_refl. cbn [andb map app member existsb fst].
+        destruct (sid_eqb i chg); auto.
+      * assert (N.max (top now l) (s_prio s) = top now l) as -> by lia.
+        unfold sel at 2 4. cbn [filter snd]. rewrite L. cbn [andb]. rewrite IHp.
+        destruct (s_prio s =? top now l) eqn:E; cbn [a_prio a_act a_cia].
+        -- cbn [map snd member existsb fst]. rewrite IHa, IHc.
+           repeat split; auto. destruct (sid_eqb i chg); cbn; rewrite ?orb_true_r, ?orb_false_r; reflexivity.
+        -- cbn [map member existsb]. rewrite app_nil_r, orb_false_r. auto.
+    + rewrite N.max_0_r. unfold sel at 2 4. cbn [filter snd]. rewrite L. cbn [andb map member existsb].
+      rewrite app_nil_r, orb_false_r. auto.
+Qed.
+
+Lemma scan_char now chg w :
+  a_prio (scan now chg w) = top now (sources w) /\
+  a_act (scan now chg w) = map snd (group now (sources w)) /\
+  a_cia (scan now chg w) = member chg (group now (sources w)).
+Proof.
+  unfold scan, sources. rewrite <- fold_left_app. rewrite group_sel. apply scanl_char.
+Qed.
+
+(* ---- HTP merge = slot-wise maximum ---- *)
+Lemma htp_length a : forall b, length (htp a b) = Nat.max (length a) (length b).
+Proof.
+  induction a as [|x a IH]; intros [|y b]; cbn [htp length]; try lia.
+  rewrite IH. lia.
+Qed.
+Lemma htp_nth a : forall b i, nth i (htp a b) 0 = N.max (nth i a 0) (nth i b 0).
+Proof.
+  induction a as [|x a IH]; intros [|y b] [|i]; cbn [htp nth]; try lia.
+  apply IH.
+Qed.
+Lemma maxlen_cons f fs : maxlen (f :: fs) = Nat.max (length f) (maxlen fs).
+Proof. reflexivity. Qed.
+Lemma fold_htp_length fs : forall a, length (fold_left htp fs a) = Nat.max (length a) (maxlen fs).
+Proof.
+  induction fs as [|f fs IH]; intros a; cbn [fold_left].
+  - cbn. lia.
+  - rewrite IH, htp_length, maxlen_cons. lia.
+Qed.
+Lemma fold_htp_nth fs i : forall a,
+  nth i (fold_left htp fs a) 0 = N.max (nth i a 0) (maxl (map (fun f => nth i f 0) fs)).
+Proof.
+  induction fs as [|f fs IH]; intros a; cbn [fold_left map maxl fold_right].
+  - lia.
+  - rewrite IH, htp_nth. fold (maxl (map (fun f0 => nth i f0 0) fs)). lia.
+Qed.
+Lemma maxl_beyond fs i : (maxlen fs <= i)%nat -> maxl (map (fun f => nth i f 0) fs) = 0.
+Proof.
+  induction fs as [|f fs IH]; intros H; cbn [map maxl fold_right]; [reflexivity|].
+  rewrite maxlen_cons in H. fold (maxl (map (fun f0 => nth i f0 0) fs)).
+  rewrite IH by lia. rewrite nth_overflow by lia. reflexivity.
+Qed.
+Lemma slotwise_length fs : length (slotwise_max fs) = maxlen fs.
+Proof. unfold slotwise_max. rewrite map_length, seq_length. reflexivity. Qed.
+Lemma nth_map_seq (f : nat -> N) n i : (i < n)%nat -> nth i (map f (seq 0 n)) 0 = f i.
+Proof.
+  intros H. rewrite nth_indep with (d' := f 0%nat) by (rewrite map_length, seq_length; exact H).
+  rewrite map_nth, seq_nth by exact H. reflexivity.
+Qed.
+Lemma slotwise_nth fs i : nth i (slotwise_max fs) 0 = maxl (map (fun f => nth i f 0) fs).
+Proof.
+  destruct (Nat.lt_ge_cases i (maxlen fs)) as [H|H].
+  - unfold slotwise_max. rewrite nth_map_seq by exact H. reflexivity.
+  - rewrite nth_overflow by (rewrite slotwise_length; exact H).
+    symmetry. apply maxl_beyond. exact H.
+Qed.
+Lemma htp_merge_slotwise l : htp_merge_sources l = slotwise_max (map s_data l).
+Proof.
+  unfold htp_merge_sources.
+  apply nth_ext with (d := 0) (d' := 0).
+  - rewrite fold_htp_length, slotwise_length. cbn. lia.
+  - intros i _. rewrite fold_htp_nth, slotwise_nth. destruct i; cbn [nth]; lia.
+Qed.
+
+(* ---- MergeAll computes [expected] ---- *)
+Lemma member_find chg g :
+  member chg g = match find (fun e => sid_eqb (fst e) chg) g with Some _ => true | None => false end.
+Proof.
+  unfold member. induction g as [|e g IH]; cbn [existsb find]; [reflexivity|].
+  destruct (sid_eqb (fst e) chg); cbn [orb]; auto.
+Qed.
+Lemma changed_source_in chg s w : In (chg, s) (sources w) -> changed_source chg w = s.
+Proof.
+  unfold sources, port_sources, client_sources. intros H.
+  apply in_app_or in H as [H|H]; apply in_map_iff in H as (j & E & _); inversion E; subst; reflexivity.
+Qed.
+Lemma group_incl now l e : In e (group now l) -> In e l.
+Proof. unfold group. intros H. apply filter_In in H. tauto. Qed.
+Lemma existsb_map_snd (f : source -> bool) (g : srcs) :
+  existsb f (map snd g) = existsb (fun e => f (snd e)) g.
+Proof. induction g as [|e g IH]; cbn [map existsb]; [reflexivity|]. rewrite IH. reflexivity. Qed.
+
+Definition result (old : list N) (o : option (list N)) : list N :=
+  match o with Some f => f | None => old end.
+Definition is_some {A} (o : option A) : bool := match o with Some _ => true | None => false end.
+
+Lemma merge_all_char now chg w :
+  merge_all now chg w =
+  (set_merge (w_u w) (top now (sources w))
+     (result (u_buf (w_u w)) (expected (u_ltp (w_u w)) chg (group now (sources w)))),
+   is_some (expected (u_ltp (w_u w)) chg (group now (sources w)))).
+Proof.
+  unfold merge_all. cbv zeta.
+  destruct (scan_char now chg w) as (Hp & Ha & Hc). rewrite Hp, Ha, Hc. clear Hp Ha Hc.
+  assert (Hin : forall e, In e (group now (sources w)) -> sid_eqb (fst e) chg = true ->
+                changed_source chg w = snd e).
+  { intros [i s] H E. apply sid_eqb_eq in E. cbn [fst] in E. subst i. cbn [snd].
+    apply changed_source_in. eapply group_incl. exact H. }
+  unfold expected. rewrite member_find.
+  destruct (group now (sources w)) as [|e0 [|e1 r]] eqn:G.
+  - reflexivity.
+  - cbn [map find]. destruct (sid_eqb (fst e0) chg); reflexivity.
+  - set (g := e0 :: e1 :: r) in *.
+    destruct (find (fun e => sid_eqb (fst e) chg) g) as [e|] eqn:F.
+    + apply find_some in F as [Fin Feq]. rewrite (Hin e Fin Feq).
+      subst g. cbn [map negb]. 
+      destruct (u_ltp (w_u w)).
+      * change (snd e0 :: snd e1 :: map snd r) with (map snd (e0 :: e1 :: r)).
+        rewrite existsb_map_snd. unfold newer_exists.
+        destruct (existsb _ (e0 :: e1 :: r)); reflexivity.
+      * change (snd e0 :: snd e1 :: map snd r) with (map snd (e0 :: e1 :: r)).
+        rewrite htp_merge_slotwise, map_map. reflexivity.
+    + subst g. reflexivity.
+Qed.
+
+(* ---- from MergeAll to a whole update call ---- *)
+Lemma top_gprio now l : top now l = gprio (group now l).
+Proof.
+  destruct (group now l) as [|e g] eqn:G; cbn [gprio].
+  - destruct (top_attained now l) as [H|(e & Hin & Hl & Hp)]; [exact H|].
+    assert (In e (group now l)) as Hg.
+    { unfold group. apply filter_In. split; [exact Hin|]. unfold in_group.
+      rewrite Hl, Hp, N.eqb_refl. reflexivity. }
+    rewrite G in Hg. destruct Hg.
+  - assert (In e (group now l)) as Hg by (rewrite G; now left).
+    unfold group in Hg. apply filter_In in Hg as [_ Hg]. unfold in_group in Hg.
+    apply andb_prop in Hg as [_ Hg]. apply N.eqb_eq in Hg. symmetry. exact Hg.
+Qed.
+
+Lemma step_update w o chg now w1 :
+  apply_update w o = Some (chg, now, w1) -> step w o = data_changed chg now w1.
+Proof. intros H. unfold step. rewrite H. reflexivity. Qed.
+
+Lemma apply_update_frame w o chg now w1 :
+  apply_update w o = Some (chg, now, w1) ->
+  u_ltp (w_u w1) = u_ltp (w_u w) /\ u_buf (w_u w1) = u_buf (w_u w) /\
+  u_outs (w_u w1) = u_outs (w_u w) /\ u_sinks (w_u w1) = u_sinks (w_u w) /\
+  u_prio (w_u w1) = u_prio (w_u w).
+Proof.
+  destruct o; cbn [apply_update]; try discriminate.
+  - destruct (mem i (u_inputs (w_u w))); [|discriminate]. intros H; inversion H; subst. cbn. auto.
+  - destruct (mem i (u_inputs (w_u w))); [|discriminate]. intros H; inversion H; subst. auto.
+  - intros H; inversion H; subst. cbn. auto.
+  - intros H; inversion H; subst. cbn. auto.
+Qed.
+
+Theorem step_spec w o chg now w1 :
+  apply_update w o = Some (chg, now, w1) ->
+  let g := group now (sources w1) in
+  let ex := expected (u_ltp (w_u w)) chg g in
+  let w2 := fst (step w o) in
+  u_buf (w_u w2) = result (u_buf (w_u w)) ex /\
+  snd (step w o) = match ex with
+                   | Some f => hand_out (u_outs (w_u w)) (u_sinks (w_u w)) f (gprio g)
+                   | None => []
+                   end /\
+  u_prio (w_u w2) = gprio g /\
+  u_ltp (w_u w2) = u_ltp (w_u w1) /\ u_inputs (w_u w2) = u_inputs (w_u w1) /\
+  u_clients (w_u w2) = u_clients (w_u w1) /\ u_outs (w_u w2) = u_outs (w_u w1) /\
+  u_sinks (w_u w2) = u_sinks (w_u w1) /\ w_ports w2 = w_ports w1 /\ w_csrc w2 = w_csrc w1.
+Proof.
+  intros H. cbv zeta.
+  destruct (apply_update_frame _ _ _ _ _ H) as (El & Eb & Eo & Es & _).
+  rewrite (step_update _ _ _ _ _ H). unfold data_changed.
+  rewrite merge_all_char. rewrite El, Eb, <- top_gprio.
+  unfold fanout, hand_out.
+  destruct (expected (u_ltp (w_u w)) chg (group now (sources w1))) as [f|];
+    cbn [is_some fst snd with_u w_u w_ports w_csrc set_merge u_buf u_prio u_ltp u_inputs u_clients
+         u_outs u_sinks result]; rewrite ?Eo, ?Es; repeat split; try reflexivity; assumption.
+Qed.
+
+(* ---- the shape of [expected] in the property's cases ---- *)
+Lemma expected_outside ltp chg g : member chg g = false -> expected ltp chg g = None.
+Proof. unfold expected. rewrite member_find. destruct (find _ g); [discriminate|reflexivity]. Qed.
+
+Lemma find_in_group now w chg s :
+  In (chg, s) (group now (sources w)) ->
+  exists e, find (fun e => sid_eqb (fst e) chg) (group now (sources w)) = Some e /\ snd e = s.
+Proof.
+  intros H.
+  destruct (find (fun e => sid_eqb (fst e) chg) (group now (sources w))) as [e|] eqn:F.
+  - exists e. split; [reflexivity|]. apply find_some in F as [Fin Feq].
+    apply sid_eqb_eq in Feq. destruct e as [i s']. cbn [fst snd] in *. subst i.
+    apply group_incl in Fin. apply group_incl in H.
+    rewrite <- (changed_source_in _ _ _ Fin). apply changed_source_in. exact H.
+  - exfalso. eapply find_none in F; [|exact H]. cbn [fst] in F. rewrite sid_eqb_refl in F. discriminate.
+Qed.
+
+Lemma maxl_ge l x : In x l -> x <= maxl l.
+Proof.
+  induction l as [|y l IH]; cbn [In maxl fold_right]; [tauto|].
+  fold (maxl l). intros [->|H]; [lia|]. specialize (IH H). lia.
+Qed.
+Lemma maxl_in l : l <> [] -> In (maxl l) l.
+Proof.
+  induction l as [|y l IH]; [congruence|]. intros _. cbn [maxl fold_right In]. fold (maxl l).
+  destruct l as [|z l].
+  - left. cbn. lia.
+  - destruct (N.max_spec y (maxl (z :: l))) as [[_ ->]|[_ ->]]; [right; apply IH; congruence|now left].
+Qed.
+
+(* ---- the property's clauses ---- *)
+Lemma group_prio now l e : In e (group now l) -> s_prio (snd e) = gprio (group now l).
+Proof.
+  intros H. rewrite <- top_gprio. unfold group in H. apply filter_In in H as [_ H].
+  unfold in_group in H. apply andb_prop in H as [_ H]. apply N.eqb_eq. exact H.
+Qed.
+
+Lemma group_spec now l e :
+  In e (group now l) <->
+  In e l /\ is_live now (snd e) /\
+  forall e', In e' l -> is_live now (snd e') -> s_prio (snd e') <= s_prio (snd e).
+Proof.
+  unfold group. rewrite filter_In. unfold in_group. rewrite andb_true_iff, N.eqb_eq, liveb_is_live.
+  split.
+  - intros (Hin & Hl & Hp). split; [exact Hin|split; [exact Hl|]].
+    intros e' Hin' Hl'. rewrite Hp. apply top_ge; [exact Hin'|]. apply liveb_is_live. exact Hl'.
+  - intros (Hin & Hl & Hmax). split; [exact Hin|split; [exact Hl|]].
+    assert (s_prio (snd e) <= top now l) by (apply top_ge; [exact Hin|apply liveb_is_live; exact Hl]).
+    destruct (top_attained now l) as [H0|(e' & Hin' & Hl' & Hp')]; [lia|].
+    specialize (Hmax e' Hin' (proj1 (liveb_is_live _ _) Hl')). lia.
+Qed.
+
+Lemma outside_lemma w o chg now w1 :
+  apply_update w o = Some (chg, now, w1) ->
+  member chg (group now (sources w1)) = false ->
+  u_buf (w_u (fst (step w o))) = u_buf (w_u w) /\ snd (step w o) = [].
+Proof.
+  intros H M. destruct (step_spec _ _ _ _ _ H) as (Hb & He & _).
+  rewrite (expected_outside _ _ _ M) in Hb, He. auto.
+Qed.
+
+Lemma single_lemma w o chg now w1 s :
+  apply_update w o = Some (chg, now, w1) ->
+  group now (sources w1) = [(chg, s)] ->
+  u_buf (w_u (fst (step w o))) = s_data s /\
+  snd (step w o) = hand_out (u_outs (w_u w)) (u_sinks (w_u w)) (s_data s) (s_prio s).
+Proof.
+  intros H G. destruct (step_spec _ _ _ _ _ H) as (Hb & He & _). rewrite G in Hb, He.
+  unfold expected in Hb, He. cbn [find fst snd] in Hb, He. rewrite sid_eqb_refl in Hb, He.
+  cbn [result gprio snd] in Hb, He. auto.
+Qed.
+
+Lemma htp_lemma w o chg now w1 :
+  apply_update w o = Some (chg, now, w1) ->
+  u_ltp (w_u w) = false ->
+  (2 <= length (group now (sources w1)))%nat ->
+  member chg (group now (sources w1)) = true ->
+  let frame := slotwise_max (map (fun e => s_data (snd e)) (group now (sources w1))) in
+  u_buf (w_u (fst (step w o))) = frame /\
+  snd (step w o) = hand_out (u_outs (w_u w)) (u_sinks (w_u w)) frame (gprio (group now (sources w1))).
+Proof.
+  intros H L Hlen M. cbv zeta. destruct (step_spec _ _ _ _ _ H) as (Hb & He & _).
+  rewrite L in Hb, He. unfold expected in Hb, He. rewrite member_find in M.
+  destruct (find (fun e => sid_eqb (fst e) chg) (group now (sources w1))) as [e|]; [|discriminate].
+  destruct (group now (sources w1)) as [|a [|b r]]; cbn [length] in Hlen; try lia.
+  cbn [result] in Hb, He. auto.
+Qed.
+
+Lemma ltp_lemma w o chg now w1 s :
+  apply_update w o = Some (chg, now, w1) ->
+  u_ltp (w_u w) = true ->
+  (2 <= length (group now (sources w1)))%nat ->
+  In (chg, s) (group now (sources w1)) ->
+  (newer_exists (s_ts s) (group now (sources w1)) = true ->
+   u_buf (w_u (fst (step w o))) = u_buf (w_u w) /\ snd (step w o) = []) /\
+  (newer_exists (s_ts s) (group now (sources w1)) = false ->
+   u_buf (w_u (fst (step w o))) = s_data s /\
+   snd (step w o) = hand_out (u_outs (w_u w)) (u_sinks (w_u w)) (s_data s) (s_prio s)).
+Proof.
+  intros H L Hlen Hin. destruct (step_spec _ _ _ _ _ H) as (Hb & He & _).
+  rewrite L in Hb, He. unfold expected in Hb, He.
+  destruct (find_in_group _ _ _ _ Hin) as (e & F & Es). rewrite F, Es in Hb, He.
+  rewrite <- (group_prio _ _ _ Hin) in He. cbn [snd] in He.
+  destruct (group now (sources w1)) as [|a [|b r]]; cbn [length] in Hlen; try lia.
+  split; intros N; rewrite N in Hb, He; cbn [result] in Hb, He; auto.
+Qed.
+
+Lemma fanout_lemma w o chg now w1 :
+  apply_update w o = Some (chg, now, w1) ->
+  let g := group now (sources w1) in
+  let changed := is_some (expected (u_ltp (w_u w)) chg g) in
+  snd (step w o) =
+    (if changed
+     then hand_out (u_outs (w_u w)) (u_sinks (w_u w)) (u_buf (w_u (fst (step w o)))) (gprio g)
+     else []) /\
+  (changed = false -> u_buf (w_u (fst (step w o))) = u_buf (w_u w)).
+Proof.
+  intros H. cbv zeta. destruct (step_spec _ _ _ _ _ H) as (Hb & He & _).
+  destruct (expected (u_ltp (w_u w)) chg (group now (sources w1))); cbn [is_some result] in *.
+  - rewrite Hb. split; [exact He|discriminate].
+  - auto.
+Qed.
+
+Lemma admin_lemma w o :
+  apply_update w o = None ->
+  snd (step w o) = [] /\ u_buf (w_u (fst (step w o))) = u_buf (w_u w).
+Proof.
+  intros H. unfold step. rewrite H. cbn [fst snd]. split; [reflexivity|].
+  destruct o; cbn [admin_step]; try reflexivity.
+  destruct (SOURCE_PRIORITY_MAX <? p); reflexivity.
+Qed.
+
+Lemma noninterference_lemma wa oa wa1 wb ob wb1 chg now :
+  apply_update wa oa = Some (chg, now, wa1) ->
+  apply_update wb ob = Some (chg, now, wb1) ->
+  u_ltp (w_u wa) = u_ltp (w_u wb) -> u_buf (w_u wa) = u_buf (w_u wb) ->
+  u_outs (w_u wa) = u_outs (w_u wb) -> u_sinks (w_u wa) = u_sinks (w_u wb) ->
+  group now (sources wa1) = group now (sources wb1) ->
+  u_buf (w_u (fst (step wa oa))) = u_buf (w_u (fst (step wb ob))) /\
+  snd (step wa oa) = snd (step wb ob).
+Proof.
+  intros Ha Hb El Eb Eo Es G.
+  destruct (step_spec _ _ _ _ _ Ha) as (Hba & Hea & _).
+  destruct (step_spec _ _ _ _ _ Hb) as (Hbb & Heb & _).
+  rewrite Hba, Hbb, Hea, Heb, El, Eb, Eo, Es, G. auto.
+Qed.
+
+(* ---- the meaning of slotwise_max ---- *)
+Lemma maxlen_ge fs f : In f fs -> (length f <= maxlen fs)%nat.
+Proof.
+  induction fs as [|x fs IH]; cbn [In]; [tauto|]. rewrite maxlen_cons.
+  intros [->|H]; [lia|]. specialize (IH H). lia.
+Qed.
+Lemma maxlen_in fs : fs <> [] -> exists f, In f fs /\ length f = maxlen fs.
+Proof.
+  induction fs as [|x fs IH]; [congruence|]. intros _. rewrite maxlen_cons.
+  destruct fs as [|y fs].
+  - exists x. split; [now left|]. cbn. lia.
+  - destruct IH as (f & Hin & Hl); [congruence|].
+    destruct (Nat.max_spec (length x) (maxlen (y :: fs))) as [[_ ->]|[_ ->]].
+    + exists f. split; [now right|exact Hl].
+    + exists x. split; [now left|reflexivity].
+Qed.
+Lemma slotwise_spec fs :
+  (forall f, In f fs -> (length f <= length (slotwise_max fs))%nat) /\
+  (fs <> [] -> exists f, In f fs /\ length f = length (slotwise_max fs)) /\
+  (fs = [] -> slotwise_max fs = []) /\
+  forall i,
+    (forall f, In f fs -> nth i f 0 <= nth i (slotwise_max fs) 0) /\
+    (fs <> [] -> exists f, In f fs /\ nth i f 0 = nth i (slotwise_max fs) 0).
+Proof.
+  rewrite slotwise_length. split; [apply maxlen_ge|]. split; [apply maxlen_in|].
+  split; [intros ->; reflexivity|].
+  intros i. rewrite slotwise_nth. split.
+  - intros f H. apply maxl_ge. apply in_map_iff. exists f. auto.
+  - intros H. assert (H1 : In (maxl (map (fun f => nth i f 0) fs)) (map (fun f => nth i f 0) fs)).
+    { apply maxl_in. destruct fs; [congruence|discriminate]. }
+    apply in_map_iff in H1 as (f & E & Hin). exists f. auto.
+Qed.
